@@ -772,7 +772,10 @@ class ThreadManager(SimplePlugin):
 
     def stop(self):
         """Release all threads and run all 'stop_thread' listeners."""
-        for thread_ident, i in self.threads.items():
-            self.bus.publish('stop_thread', i)
-        self.threads.clear()
+        for thread_ident in list(self.threads):
+            # pop atomically: a concurrent release_thread() may have
+            # taken (and announced) this entry already
+            i = self.threads.pop(thread_ident, None)
+            if i is not None:
+                self.bus.publish('stop_thread', i)
     graceful = stop
